@@ -422,7 +422,7 @@ func clipLong(s string) string {
 
 func TestC01(t *testing.T) {
 	core.Run(t, "C01",
-		"random nesting path (depth 0-5 of if/else/range/block/yield-with-content/default content/include/try/catch/exec, optionally under an extends layout) with 1-3 render sites per level; values (strings rich in < > & ' \" NUL multi-byte and pre-escaped entities, 4096-boundary long strings, ints, floats, bools, []byte, Stringer, error, slices, pointers, nil pointers and nil funcs (printed as <nil>), a Renderer that writes through Runtime.Write) from literal / Execute variable / global / context sources; pipelines none/upper/html/raw/unsafe/safeHtml/safeJs/custom SafeWriter/prefix raw/chains; escaper default/nil/custom (byte-wise, non-idempotent); 1 case in 20 is a dump() / dump(n) / dump(name) action checked metamorphically against a Set without escaper; one extends case in three with the layout sitting in a Cache shared with a Set of another escaper that loaded it first; one case in four after an Execute of the same template into a destination that fails after 1-120 bytes; oracle = MiniJet reference interpreter, exact bytes; non-trivial = a value with a special byte and nesting depth >= 1",
+		"random nesting path (depth 0-5 of if/else/range/block/yield-with-content/default content/include/try/catch/exec, optionally under an extends layout) with 1-3 render sites per level; values (strings rich in < > & ' \" NUL multi-byte and pre-escaped entities, 4096-boundary long strings, ints, floats, bools, []byte, Stringer, error, slices, pointers, nil pointers and nil funcs (printed as <nil>), strings ending in the beginning of a multi-byte character, characters whose bytes straddle a 4096-byte piece boundary (U+2028 under safeJs), fmt.Stringer / error slots holding values that are Renderers too, a Renderer that writes through Runtime.Write) from literal / Execute variable / global / context sources; pipelines none/upper/html/raw/unsafe/safeHtml/safeJs/custom SafeWriter/prefix raw/chains; escaper default/nil/custom (byte-wise, non-idempotent); 1 case in 20 is a dump() / dump(n) / dump(name) action checked metamorphically against a Set without escaper; one extends case in three with the layout sitting in a Cache shared with a Set of another escaper that loaded it first; one case in four after an Execute of the same template into a destination that fails after 1-120 bytes; oracle = MiniJet reference interpreter, exact bytes; non-trivial = a value with a special byte and nesting depth >= 1",
 		genC01, judgeC01)
 }
 
